@@ -305,9 +305,10 @@ example : safe (.seq (.bindExt 0) (.loop (.seq (.bindExt 1) (.seq (.bindFresh 2 
 /-! ### per-function obligations over the table regenerated from the source -/
 
 /-- every function body of the modelled modules, as translated from the current source, is accepted by the
-    analysis or is on the hand-reviewed list (`Petl.Heap.reviewed`, PetlProofs/HeapReviewed.lean) -/
+    analysis or is on the hand-reviewed list with exactly the body that was reviewed (`Petl.Heap.isReviewed`,
+    PetlProofs/HeapReviewed.lean and HeapReviewedBodies.lean) -/
 theorem all_bodies_safe :
-    ∀ f ∈ Gen.heapProgs, Heap.reviewed.contains f.1 = true ∨ safe f.2 = true := Gen.heapProgs_safe
+    ∀ f ∈ Gen.heapProgs, Heap.isReviewed f = true ∨ safe f.2 = true := Gen.heapProgs_safe
 
 /-- the translator and the analysis give the expected verdict on every reference snippet
     (translators/heap_selftest_cases.py: in-place edits of source rows, reused row buffers, edits after yield are
